@@ -381,7 +381,8 @@ def ip_layout(fam, raw: bytes, addpath: bool):
             if len(chunk) < 3:
                 return None
             off += 3
-            if chunk[2] & 1 or chunk == b'\x80\x00\x00' or chunk == b'\x00\x00\x00':
+            # the bottom-of-stack bit ends the stack; the two RFC 3107 marker values only do when they are the whole stack
+            if chunk[2] & 1 or (off - 3 == label_start and chunk in (b'\x80\x00\x00', b'\x00\x00\x00')):
                 break
     label_end = off
     rdo = None
@@ -1429,6 +1430,18 @@ def history_fixed_cases() -> list:
 
 
 def check(case: dict) -> dict:
+    try:
+        return _dispatch(case)
+    except Violation as v:
+        labels = (case.get('route') or {}).get('labels') or []
+        if case.get('kind') == 'text' and len(labels) >= 2 and labels[0] in (0, 524288) and not v.signature.endswith('first-label-0-ends-the-stack'):
+            # the listed root cause (a first label of 0 or 524288 is taken for an RFC 3107 marker that ends the stack), met through a whole route
+            klass = 'IPVPNBase' if case['route'].get('safi') == 128 else 'INETBase'
+            raise V(f'nlri:{klass}.unpack_nlri:first-label-0-ends-the-stack', f'{v.message} [law: {v.signature}]') from None
+        raise
+
+
+def _dispatch(case: dict) -> dict:
     kind = case['kind']
     if kind == 'nlri':
         return check_nlri(case)
